@@ -575,6 +575,12 @@ const BRANCHES: &[&str] = &[
     "HEAD",
     "capabilities",
     "sp\u{2003}mid",
+    // legal in ref names, special somewhere in the wire format
+    "a=b",
+    "x,y;z",
+    "p+q%r",
+    "at@sign",
+    "(par)=(q)",
 ];
 
 fn corpus_plans() -> Vec<Plan> {
@@ -668,6 +674,19 @@ fn corpus_plans() -> Vec<Plan> {
             annotated: true,
             nested: 1,
             lightweight: vec!["lw", "v1.0"],
+            ..base()
+        },
+        Plan {
+            branches: vec!["main", "a=b", "x,y;z", "p+q%r", "at@sign", "(par)=(q)"],
+            lightweight: vec!["v=1;2,3+4%5@6(7)"],
+            symrefs: vec![("refs/heads/sym=eq", "refs/heads/a=b"), ("refs/heads/sym2", "refs/heads/(par)=(q)")],
+            head: "other-branch",
+            ..base()
+        },
+        Plan {
+            branches: vec!["(par)=(q)", "main"],
+            head: "other-branch",
+            other_refs: true,
             ..base()
         },
     ]
@@ -1481,6 +1500,8 @@ fn run() {
     std::env::set_var("GIT_CONFIG_NOSYSTEM", "1");
     std::env::set_var("GIT_CONFIG_GLOBAL", "/dev/null");
     std::env::set_var("LC_ALL", "C");
+    // the capability VALUE git lets us choose: bytes that are special elsewhere on the wire
+    std::env::set_var("GIT_USER_AGENT", "git/2.39=verif:a,b;c+d%e@f(g)");
     let args = Args::parse();
     let mut rep = Report::new("C30", &args);
     let scratch = Scratch::new("c30");
